@@ -163,4 +163,6 @@ class Tank(PoupoolActor):
         if height < self.levels["high"] - self.hysteresis:
             self._proxy.normal.defer()
         else:
-            self.do_delay(self.STATE_REFRESH_DELAY * 2, self.do_repeat_high.__name__)
+            # Same refresh delay as in the normal state. With a dead sensor (each reading then takes
+            # 5 seconds) we have to go through normal and low within 30 seconds to stop the system.
+            self.do_delay(self.STATE_REFRESH_DELAY, self.do_repeat_high.__name__)
